@@ -852,6 +852,85 @@ def c10_sumfact_scope(rep, tier, seed):
     (rep.ob(name, "proved", "exhaustive-finite", "exhaustive") if ok else rep.violation("finite:sumfact-scope", name, dict(got=[ast.unparse(a) for a in assigns])))
 
 
+def c10_inapplicable_options(rep, tier, seed):
+    """'Options that do not apply to an integral have no effect on it' (C10), on the real pipeline: for each listed
+    (form, integral, option) where the option does not apply, the LNodes kernel generated with the option is the same
+    text as without it.  Exhaustive over the listed cases (finite); an exception counts as an effect."""
+    import basix
+    import basix.ufl
+    import numpy as np
+    import ufl
+
+    from ffcx.analysis import analyze_ufl_objects
+    from ffcx.codegeneration.backend import FFCXBackend
+    from ffcx.codegeneration.C.formatter import Formatter
+    from ffcx.codegeneration.integral_generator import IntegralGenerator
+    from ffcx.ir.representation import compute_ir
+    from ffcx.options import get_options
+
+    def kernels(form, opts):
+        options = get_options(dict(opts))
+        analysis = analyze_ufl_objects([form], options["scalar_type"])
+        ir = compute_ir(analysis, {}, "v", options, False)
+        out = {}
+        fmt = Formatter(options["scalar_type"])
+        for iir, itg in zip(ir.integrals, analysis.form_data[0].integral_data):
+            for dom in sorted({k[0] for k in iir.expression.integrand}, key=lambda c: c.name):
+                prog = IntegralGenerator(iir, FFCXBackend(iir, options)).generate(dom)
+                out[(itg.integral_type, str(itg.subdomain_id), dom.name)] = fmt(prog)
+        return out
+
+    def lag(cell, deg, shape=None):
+        return basix.ufl.element("Lagrange", cell, deg, shape=shape) if shape else basix.ufl.element("Lagrange", cell, deg)
+
+    def tp(ct, deg, shape=None):
+        e = basix.ufl.wrap_element(basix.create_tp_element(basix.ElementFamily.P, ct, deg, basix.LagrangeVariant.gll_warped))
+        return basix.ufl.blocked_element(e, shape=shape) if shape else e
+
+    cases = []
+    # sum factorisation: applies to cell integrals on quadrilateral/hexahedron cells with tensor-product elements only
+    m = ufl.Mesh(tp(basix.CellType.quadrilateral, 1, (2,)))
+    V = ufl.FunctionSpace(m, tp(basix.CellType.quadrilateral, 2))
+    u, v = ufl.TrialFunction(V), ufl.TestFunction(V)
+    cases.append(("sum_factorization:exterior_facet:quadrilateral", ufl.inner(ufl.grad(u), ufl.grad(v)) * ufl.dx + u * v * ufl.ds, dict(sum_factorization=True),
+                  lambda k: k[0] == "exterior_facet"))
+    cases.append(("sum_factorization:interior_facet+vertex:quadrilateral", u * v * ufl.dx + ufl.jump(u) * ufl.jump(v) * ufl.dS + u * v * ufl.dP, dict(sum_factorization=True),
+                  lambda k: k[0] != "cell"))
+    m = ufl.Mesh(lag("triangle", 1, (2,)))
+    V = ufl.FunctionSpace(m, lag("triangle", 2))
+    u, v = ufl.TrialFunction(V), ufl.TestFunction(V)
+    cases.append(("sum_factorization:cell:triangle", u * v * ufl.dx, dict(sum_factorization=True), lambda k: True))
+    cases.append(("sum_factorization:exterior_facet:triangle", u * v * ufl.ds, dict(sum_factorization=True), lambda k: True))
+    # (hexahedron/quadrilateral cell integrals whose elements have no tensor-product factorisation still get the
+    #  tensor-product rule: the option applies there, and E3 metamorphic compares the tensors on corpus/tp_mixed_elements.py)
+    m = ufl.Mesh(lag("hexahedron", 1, (3,)))
+    V = ufl.FunctionSpace(m, lag("hexahedron", 2))
+    u, v = ufl.TrialFunction(V), ufl.TestFunction(V)
+    cases.append(("sum_factorization:exterior_facet:hexahedron", u * v * ufl.ds, dict(sum_factorization=True), lambda k: True))
+    # part=diagonal applies to bilinear forms only
+    f = ufl.Coefficient(V)
+    cases.append(("part=diagonal:linear-form", f * v * ufl.dx + v * ufl.ds, dict(part="diagonal"), lambda k: True))
+    cases.append(("part=diagonal:functional", f * f * ufl.dx, dict(part="diagonal"), lambda k: True))
+    for key, form, opts, select in cases:
+        name = f"option {opts} does not apply to {key.split(':', 1)[1]}: the generated kernels are the same text as without it"
+        try:
+            base = kernels(form, {})
+        except Exception as e:  # noqa: BLE001
+            rep.undecide(name, f"baseline does not compile: {type(e).__name__}: {e}")
+            continue
+        try:
+            got = kernels(form, opts)
+            diff = [k for k in base if select(k) and got.get(k) != base[k]]
+            effect = f"kernels {diff} differ" if diff else None
+        except Exception as e:  # noqa: BLE001
+            effect = f"{type(e).__name__}: {str(e)[:120]}"
+        if effect is None:
+            rep.ob(name, "proved", "exhaustive-finite", "exhaustive")
+        else:
+            rep.violation(f"inapplicable-option:{key}", name + f" fails: {effect}",
+                          dict(obligation=name, case=key, options=opts, effect=effect, how_to_replay="checks/finite.py::c10_inapplicable_options builds the form named by the key"))
+
+
 # ------------------------------------------------------------------------------------------ C07
 def c07_licm_storage(rep, tier, seed):
     """optimizer.licm on synthetic two-level loop nests of many sizes: the hoisted arrays are declared inside the
